@@ -78,6 +78,20 @@ structure Clean (s : St) : Prop where
 
 /-! ## one token leaving a node -/
 
+@[simp] theorem cause_subs (s : St) (c : String) : (s.cause c).subs = s.subs := by
+  unfold St.cause; split <;> rfl
+
+/-- leaving a node never touches the list of active sub-processes -/
+theorem selectFlows_subs (cfg : Cfg) (p : Proc) (s : St) (t : Tok) (fls : List String) (u : Bool) :
+    (selectFlows cfg p s t fls u).2.2.subs = s.subs := by
+  unfold selectFlows
+  split
+  · simp
+  · simp only
+    split
+    · simp
+    · split <;> simp
+
 theorem selectFlows_clean (cfg : Cfg) (hff : cfg.firstFlowDecides = false) (p : Proc) (s : St) (t : Tok)
     (fls : List String) (u : Bool) (h : Clean s) : Clean (selectFlows cfg p s t fls u).2.2 := by
   unfold selectFlows
